@@ -90,11 +90,52 @@ def gen_conc(rng, i, mode):
         ops.append("getorcreate")
     return {"id": f"conc-{mode}-{i}", "kind": "conc", "ops": ops}
 
-def generate(seed, n_hist, n_conc_key, n_conc_new, n_scan):
+def lockstep(rng, n, rounds=3):
+    """everybody passes the fast path, then everybody re-reads, then everybody stores: the schedule on
+    which callers that are NOT serialised by KEY_GENERATION_LOCK each generate and store a key"""
+    ts = list(range(1, n + 1))
+    rng.shuffle(ts)
+    return ",".join(map(str, ts * rounds))
+
+def gen_poison(rng, i):
+    """one harness PROCESS: a credential call panics (`ring panic k`: outside the locked section for the
+    fast-path read, inside it — poisoning the process-wide KEY_GENERATION_LOCK — for the re-read and the
+    store), then concurrent and sequential callers arrive.  Six templates, parameters seeded."""
+    tpl = i % 6
+    n = rng.choice([2, 3, 3, 4, 5])
+    d = rng.choice(["absent", "pre700"])
+    sched = lambda m: lockstep(rng, m) if rng.random() < 0.7 else gen_sched(rng, m)
+    ops = [f"reset {d}"]
+    if tpl == 0:        # sequential get_or_create panics at its re-read under the lock
+        ops += ["ring panic 2", "getorcreate", "faultstate", f"conc key {n} {lockstep(rng, n)}", "getorcreate"]
+    elif tpl == 1:      # … at set_secret; afterwards racing get_or_create AND `new`
+        ops += ["ring panic 3", "getorcreate", "faultstate", f"conc key {n} {lockstep(rng, n)}", f"conc new {n} {sched(n)}", "open new"]
+    elif tpl == 2:      # `new` panics inside the locked section; the 0-byte file is removed; callers race
+        ops += [f"ring panic {rng.choice([2, 3])}", "open new", "faultstate", "file missing",
+                f"conc key {n} {lockstep(rng, n)}", "open new", "getorcreate"]
+    elif tpl == 3:      # the panic happens DURING a concurrent run (k-th call overall), then a second run
+        k = rng.choice([n + 1, n + 1, n + 2, rng.randint(1, n + 3)])
+        ops += [f"ring panic {k}", f"conc key {n} {lockstep(rng, n)}", "faultstate",
+                f"conc key {n} {lockstep(rng, n)}", "getorcreate"]
+    elif tpl == 4:      # a panic OUTSIDE the locked section (fast path) poisons nothing
+        trig = rng.choice(["getorcreate", "open new", "getkey"])
+        ops += ["ring panic 1", trig, "faultstate"] + (["file missing"] if trig == "open new" else []) + \
+               [f"conc key {n} {sched(n)}", rng.choice(["getorcreate", "open new"])]
+    else:               # poisoned, then a key appears: fast-path hits still succeed; then it is gone again
+        ops += ["ring panic 2", "getorcreate", "faultstate", "ring k3", f"conc key {n} {sched(n)}", "getorcreate",
+                "ring none", f"conc {rng.choice(['key', 'new'])} {n} {lockstep(rng, n)}", "faultstate"]
+    if rng.random() < 0.3:
+        ops.append("getkey")
+    ops.append("faultstate")
+    return {"id": f"poison-{i}", "kind": "poison", "ops": ops}
+
+def generate(seed, n_hist, n_conc_key, n_conc_new, n_scan, n_poison=0):
     rng = random.Random(seed)
     cases = [gen_history(rng, i) for i in range(n_hist)]
     cases += [gen_conc(rng, i, "key") for i in range(n_conc_key)]
     cases += [gen_conc(rng, i, "new") for i in range(n_conc_new)]
+    prng = random.Random(seed * 1000003 + 17)     # own stream: the other cases stay what they were
+    cases += [gen_poison(prng, i) for i in range(n_poison)]
     for i in range(n_scan):
         v = (seed * 7 + i) % 200
         cases.append({"id": f"scan-{v}", "kind": "scan", "ops": [f"scan enc {v}", f"scan plain {v}"]})
@@ -109,11 +150,24 @@ def load_corpus():
                 cases += parse_trace(open(os.path.join(d, f)).read(), f"corpus:{f}")
     return cases
 
+def isolated(c):
+    """must this case run in a harness process of its own? (a poisoned KEY_GENERATION_LOCK stays poisoned
+    for the life of the process)"""
+    return c["kind"] == "poison" or any(op.startswith("ring panic") for op in c["ops"])
+
 def parse_trace(text, name):
-    cases, cur = [], None
+    cases, cur, iso = [], None, False
     for l in text.split("\n"):
         l = l.strip()
+        if l.startswith("#!process"):
+            # everything up to the next `#!process` line is ONE case, run in its own harness process
+            cur = {"id": f"{name}#{len(cases)}", "kind": "poison", "ops": []}
+            cases.append(cur); iso = True
+            continue
         if not l or l.startswith("#"):
+            continue
+        if iso:
+            cur["ops"].append(l)
             continue
         if l.startswith("reset ") or l.startswith("scan ") and cur is None:
             cur = {"id": f"{name}#{len(cases)}", "kind": "corpus", "ops": []}
@@ -145,25 +199,40 @@ def driver_line(op, impl):
         return f"conc new {t[2]} {ev} {field(impl, 'ret') or '-'}"
     return op
 
-def run(cases):
-    """fills case['impl'] and case['model'] (None for lines the model has nothing to say about)"""
+def run_harness(cases):
     text = "".join("\n".join(c["ops"]) + "\n" for c in cases)
     rc1, impl, err1 = C.run_lines([C.VH, "atrest"], text)
     total = sum(len(c["ops"]) for c in cases)
     if len(impl) != total:
         raise RuntimeError(f"atrest engine: harness printed {len(impl)} lines for {total} ops (rc={rc1})\n{err1[-600:]}")
     i = 0
-    dlines = []
     for c in cases:
         c["impl"] = impl[i:i + len(c["ops"])]
         i += len(c["ops"])
+
+def run(cases):
+    """fills case['impl'] and case['model'] (None for lines the model has nothing to say about).
+    Cases that inject a panic run each in a harness process of their own; the driver is told with a
+    `newprocess` line (its answer is dropped)."""
+    shared = [c for c in cases if not isolated(c)]
+    own = [c for c in cases if isolated(c)]
+    if shared:
+        run_harness(shared)
+    for c in own:
+        run_harness([c])
+    dlines = []
+    for c in shared + own:
         c["dlines"] = [None if op.startswith("scan") else driver_line(op, o) for op, o in zip(c["ops"], c["impl"])]
+        if isolated(c):
+            dlines.append("newprocess")
         dlines += [d for d in c["dlines"] if d is not None]
     rc2, model, err2 = C.run_lines([C.DRV, "atrest"], "\n".join(dlines) + "\n")
     if len(model) != len(dlines):
         raise RuntimeError(f"atrest engine: driver printed {len(model)} lines for {len(dlines)} ops (rc={rc2})\n{err2[-600:]}")
     j = 0
-    for c in cases:
+    for c in shared + own:
+        if isolated(c):
+            j += 1
         c["model"] = []
         for d in c["dlines"]:
             if d is None:
@@ -191,7 +260,7 @@ def fields_diff(a, b):
 
 def case_text(c, upto=None, note=""):
     ops = c["ops"] if upto is None else c["ops"][: upto + 1]
-    return f"# case {c['id']}\n" + (f"# {note}\n" if note else "") + "\n".join(ops) + "\n"
+    return f"# case {c['id']}\n" + (f"# {note}\n" if note else "") + ("#!process\n" if isolated(c) else "") + "\n".join(ops) + "\n"
 
 def correspondence(cases, stats):
     fails = []
@@ -233,17 +302,67 @@ def oracle(cases):
     stats = {"opens": 0, "opens_ok": 0, "enc_file_opens": 0, "enc_refusals": 0, "reopen_same_data": 0, "mode_checks": 0,
              "new_on_existing": 0, "key_reuse_checks": 0, "conc_runs": 0, "conc_threads": 0, "conc_loser_refused": 0,
              "conc_mutex_checks": 0, "scan_enc": 0, "scan_plain": 0, "scan_files_seen": {}, "hot_journals": 0,
-             "stuck_after_failed_first_open": 0, "control_forms": {}}
+             "stuck_after_failed_first_open": 0, "control_forms": {}, "faults_injected": 0, "faults_fired": 0,
+             "faults_fired_in_locked_section": 0, "calls_after_poisoning": 0, "err_keyring_after_poisoning": 0,
+             "fastpath_ok_after_poisoning": 0}
     def fail(c, k, sig, what):
         fails.append({"kind": "oracle", "signature": sig, "what": f"{c['id']} step {k} `{c['ops'][k][:80]}`: {what}",
                       "replay_body": case_text(c, k, what), "case": c, "step": k})
     for c in cases:
         file_st, ring, dir_created_by_mdk, dir0 = "missing", "none", False, None
         last_new_key, tampered = None, True
+        armed, fired_seen, poisoned_seen, armed_k = False, False, False, 0
         for k, (op, out) in enumerate(zip(c["ops"], c["impl"])):
             t = op.split()
-            if out.startswith("panic") or " panic" in out.split(" fresh=")[0]:
-                fail(c, k, "panic:" + t[0], "the call panicked")
+            # panics are EXPECTED exactly where a fault was injected (`ring panic k`), and nowhere else:
+            # at most one per injected fault, only while it is armed; `faultstate` (the harness' own
+            # account) must agree with what the results showed
+            if t[0] == "conc":
+                rets_ = (field(out, "ret") or "").split(",")
+                evp = [e.split(".")[0] for e in (field(out, "ev") or "-").split(";") if e.endswith(".panic")]
+                retp = [str(i + 1) for i, r in enumerate(rets_) if r == "panic"]
+                npanic = len(retp)
+                if sorted(evp) != sorted(retp):
+                    fail(c, k, "panic:conc-unexplained", f"callers {retp} panicked but the mock store panicked in the calls of {evp}")
+                # was the panicking call inside the locked section? (the caller's 2nd read, or its store)
+                for who in evp:
+                    mine = [e.split(".") for e in (field(out, "ev") or "-").split(";") if e.split(".")[0] == who]
+                    if len(mine) >= 2:
+                        poisoned_seen = True; stats["faults_fired_in_locked_section"] += 1
+                if poisoned_seen:
+                    stats["calls_after_poisoning"] += len(rets_)
+                    stats["err_keyring_after_poisoning"] += sum(1 for r in rets_ if r == "err:Keyring")
+                    stats["fastpath_ok_after_poisoning"] += sum(1 for r in rets_ if re.fullmatch(r"k\d+", r))
+            else:
+                npanic = 1 if out.startswith("panic") else 0
+                if t[0] in ("getorcreate", "open") and t[-1] in ("getorcreate", "new"):
+                    # with an empty keyring call 1 is the lock-free fast path, calls 2 and 3 are under the lock
+                    if npanic and armed_k >= 2:
+                        poisoned_seen = True; stats["faults_fired_in_locked_section"] += 1
+                    elif poisoned_seen:
+                        stats["calls_after_poisoning"] += 1
+                        stats["err_keyring_after_poisoning"] += out.startswith("err Keyring")
+                        stats["fastpath_ok_after_poisoning"] += out.startswith(("ok ", "some "))
+            if npanic:
+                if not armed:
+                    fail(c, k, "panic:" + t[0], "the call panicked although no fault was injected (or the injected one had fired already)")
+                elif npanic > 1:
+                    fail(c, k, "panic:" + t[0], f"{npanic} callers panicked for ONE injected fault")
+                else:
+                    armed, fired_seen = False, True
+                    stats["faults_fired"] += 1
+            if t[0] == "ring" and len(t) == 3 and t[1] == "panic":
+                armed, fired_seen, armed_k = True, False, int(t[2])
+                stats["faults_injected"] += 1
+                continue
+            if t[0] == "faultstate":
+                fs = field(out, "fault") or "?"
+                want = "armed" if armed else ("fired" if fired_seen else "none")
+                if fs.split(":")[0] != want:
+                    fail(c, k, "panic:fault-account", f"the mock store says `{fs}`, the results so far say `{want}`")
+                continue
+            if t[0] == "reset":
+                armed, fired_seen = False, False
             if t[0] == "reset":
                 file_st, ring, dir0, tampered, last_new_key = "missing", "none", t[1], True, None
             elif t[0] == "file":
@@ -335,8 +454,6 @@ def oracle(cases):
                     fail(c, k, "conc-returned-not-stored", f"callers returned {sorted(set(oks))} but the keyring holds {ra}")
                 if field(out, "usable") != "1":
                     fail(c, k, "conc-storage-unusable", "a storage that opened cannot be read")
-                if "panic" in rets:
-                    fail(c, k, "panic:conc", "a concurrent caller panicked")
                 if t[1] == "new":
                     fa = field(out, "file"); ak, akey, _ = parse_file(fa)
                     if oks and (ak != "enc" or akey != oks[0]):
